@@ -23,6 +23,7 @@
 #ifndef C25_MODEL_H
 #define C25_MODEL_H
 #include "verif.h"
+#define VERIF_RG_POST_STEP   /* environment also acts after each of my atomic operations */
 #include "verif_rg.h"
 #include "parsec/runtime.h"
 
